@@ -26,10 +26,14 @@ func init() {
 	}
 	props["C02"] = func(rc *RunCtx) int {
 		rep := NewReport("C02", rc.Tier, rc.Seed, "model_checking")
-		rep.Rule = "same SetAlgebra model; for every ordered pair of literals the spec says whether they are the same value (TLA+ =), and every pair of recipes of the two sides is observed at every observation point of the property (=, !=, {a,b} count, with, <:, dict key lookup, dict with both keys, //str.repr, tuple and set wrapping, &); in chains every pair of bindings is compared. Non-trivial: both sides non-empty."
+		rep.Rule = "same SetAlgebra model; for every ordered pair of literals the spec says whether they are the same value (TLA+ =), and every pair of recipes of the two sides is observed at every observation point of the property (=, !=, {a,b} count, with, <:, dict key lookup, dict with both keys, //str.repr, tuple and set wrapping, &); in chains every pair of bindings is compared. The Nesting spec adds, for every literal c of up to two pool elements, all ordered pairs of the family {c, {c}, c + {{}}, {c, {}}, {{c}}, {c + {{}}}} - values that differ only in nesting and hash alike under a non-mixing container hash. Non-trivial: both sides non-empty."
 		rep.Assume = setAlgAssume
 		rep.Exhaust = true
 		runTLCToPool(rep, rc, setAlgRuns(rc, true, "num=1500", "num=40000"), &Pool{Handler: "setalg-c02"})
+		if rc.Replay == "" {
+			// structural near-misses (Nesting spec): values that differ only in how their members are nested
+			runTLCToPool(rep, rc, []*TLCRun{{Module: "Nesting", Cfg: "Nesting.cfg", Timeout: 20 * time.Minute}}, &Pool{Handler: "setalg-nest"})
+		}
 		return rep.Finish()
 	}
 	props["C03"] = func(rc *RunCtx) int {
